@@ -165,6 +165,11 @@ type exRec struct {
 	ctxValueOK     bool
 	// reused upstream connections (reuse.go)
 	dropped int
+	// blind tunnel against a resetting target (tunnelrst.go)
+	tunnelGot  int
+	tunnelHung bool
+	// context flags after the request modifier's calls (api.go): skip round trip, skip logging, API request
+	flags string
 	// early-answering origin (early.go)
 	earlyErr string
 }
@@ -253,20 +258,20 @@ func (w *world) reqmod() martian.RequestModifier {
 		if it == nil {
 			return nil
 		}
+		rq := it.s("rq", "pass")
+		if (rq == "skip" || rq == "errskip") && ctx != nil && !strings.Contains(it.s("api", ""), "skiprt") {
+			ctx.SkipRoundTrip() // first; otherwise the call is at its place in the api= list
+		}
 		apiCalls(it.s("api", ""), ctx)
-		switch it.s("rq", "pass") {
+		w.mu.Lock()
+		r.flags = seenFlags(ctx)
+		w.mu.Unlock()
+		switch rq {
 		case "insec":
 			apiCalls("insec", ctx)
 		case "err":
 			return modErr(it.s("ek", "plain"), reqErrMark)
-		case "skip":
-			if ctx != nil {
-				ctx.SkipRoundTrip()
-			}
 		case "errskip":
-			if ctx != nil {
-				ctx.SkipRoundTrip()
-			}
 			return modErr(it.s("ek", "plain"), reqErrMark)
 		case "hijack":
 			if ctx == nil { // no context for this message: the oracle reports it; nothing to hijack
@@ -353,6 +358,15 @@ func reqHeaders(it *item) [][2]string {
 		}
 		hs = append(hs, [2]string{names[i], v})
 	}
+	hs = append(hs, semanticHeaders(it)...)
+	for _, l := range dateLines(it.s("dt", "")) { // the Date the client sent is an end-to-end header too
+		hs = append(hs, [2]string{"Date", l})
+	}
+	for _, h := range upgradeHeaders(it) {
+		if h[0] != "Connection" {
+			hs = append(hs, h)
+		}
+	}
 	return append(hs, bulkHeaders("X-Bulk", it.n("rhb", 0), it.s("rhs", "many"), seed)...)
 }
 
@@ -403,6 +417,9 @@ func pathOf(id string, it *item) string {
 	case 5:
 		return "/p" + id + "/a+b/~t/(1)!$,'*?k=v+w&sub=a%26b%3Dc"
 	}
+	if it.n("pk", 0) == 6 { // the asterisk form (OPTIONS only)
+		return "*"
+	}
 	if n := it.n("tl", 0); n > 0 { // a very long target
 		return "/p" + id + "/" + strings.Repeat("segment/", n/16) + "?q=" + id + "&pad=" + strings.Repeat("a", n/2)
 	}
@@ -426,6 +443,9 @@ func (e *Ex) buildRequest(id string, it *item) []byte {
 			host = e.faultAddr // the port the https target names does not hold a (trusted) TLS server
 		}
 	}
+	if it.s("via", "") == "sniff" && it.s("sec", "0") == "1" && it.s("o", "ok") == "ok" {
+		host = e.sniffAddr // a TLS origin behind a port that tells a ClientHello from a cleartext request
+	}
 	path := pathOf(id, it)
 	target := path
 	switch it.s("tf", "origin") {
@@ -434,11 +454,18 @@ func (e *Ex) buildRequest(id string, it *item) []byte {
 	case "abss":
 		target = "https://" + host + path
 	}
-	fmt.Fprintf(&b, "%s %s %s\r\nHost: %s\r\n%s: %s\r\n", method, target, protoOf(it.s("pv", "11")), host, idHeader, id)
+	fmt.Fprintf(&b, "%s %s %s\r\n%s%s: %s\r\n", method, target, protoOf(it.s("pv", "11")), hostLine(it, host), idHeader, id)
 	for _, h := range reqHeaders(it) {
-		fmt.Fprintf(&b, "%s: %s\r\n", h[0], h[1])
+		if h[0] != "Date" {
+			fmt.Fprintf(&b, "%s: %s\r\n", h[0], h[1])
+		}
 	}
 	writeConnLines(&b, connLines(it, "ct", "rc"))
+	for _, h := range upgradeHeaders(it) {
+		if h[0] == "Connection" {
+			fmt.Fprintf(&b, "Connection: %s\r\n", h[1])
+		}
+	}
 	writeConsulted(&b, it.s("dt", ""), it.s("wp", "0") == "1")
 	body := Body(it.n("rb", 0), it.n("hs", 1))
 	hasBody := method == "POST" || method == "PUT" || method == "PATCH" || method == "DELETE" || it.n("rb", 0) > 0
@@ -547,32 +574,44 @@ func (e *Ex) originConn(c net.Conn, isTLS bool) {
 		var body []byte
 		var earlyErr error
 		earlyClose, early := false, false
-		if eit != nil {
-			body, earlyErr, earlyClose, early = e.originEarly(c, req, id, eit)
+		// what the origin received is recorded BEFORE the last byte of its answer goes out: the client may
+		// finish the case the moment it has the complete response
+		record := func(body []byte, earlyErr error) {
+			w.mu.Lock()
+			defer w.mu.Unlock()
+			it := w.items[id]
+			r := w.rec(id)
+			r.upCount++
+			r.upSeq = w.next()
+			r.upTLS = isTLS
+			r.upMethod = req.Method
+			r.upURI = req.URL.RequestURI()
+			r.upBody = sum(body)
+			r.upWarn = len(req.Header["Warning"])
+			if it != nil {
+				r.upWarn = carrying(req.Header["Warning"], modErr(it.s("ek", "plain"), reqErrMark))
+				r.upHdrOK, r.upHdrDetail = headersIncluded(reqHeaders(it), req.Header)
+			}
+			if earlyErr != nil {
+				r.earlyErr = earlyErr.Error()
+			}
+		}
+		unread := eit != nil && eit.s("ur", "0") == "1" && eit.s("o", "ok") == "ok"
+		if unread {
+			early = true // recorded first, answered below without reading the upload (unread.go)
+			record(nil, nil)
+		} else if eit != nil {
+			earlyErr, earlyClose, early = e.originEarly(c, req, id, eit, record)
 		}
 		if !early {
 			body, _ = io.ReadAll(req.Body)
+			record(body, nil)
 		}
-		w.mu.Lock()
-		it := w.items[id]
-		r := w.rec(id)
-		r.upCount++
-		r.upSeq = w.next()
-		r.upTLS = isTLS
-		r.upMethod = req.Method
-		r.upURI = req.URL.RequestURI()
-		r.upBody = sum(body)
-		r.upWarn = len(req.Header["Warning"])
-		if it != nil {
-			r.upWarn = carrying(req.Header["Warning"], modErr(it.s("ek", "plain"), reqErrMark))
+		it := eit
+		if unread {
+			e.originUnread(c, req, id, eit)
+			return
 		}
-		if it != nil {
-			r.upHdrOK, r.upHdrDetail = headersIncluded(reqHeaders(it), req.Header)
-		}
-		if earlyErr != nil {
-			r.earlyErr = earlyErr.Error()
-		}
-		w.mu.Unlock()
 		if early {
 			if earlyClose || earlyErr != nil {
 				return
@@ -660,6 +699,10 @@ type Ex struct {
 	originTLSAddr string
 	sessions      []string
 	shaped        *trafficshape.Listener
+	snl           net.Listener // a trusted TLS origin behind the first-byte sniffer (upfault.go)
+	sniffAddr     string
+	rstl          net.Listener // a tunnel target that closes abortively (tunnelrst.go)
+	rstAddr       string
 	dl            net.Listener // the downstream proxy (dsp.go)
 	downAddr      string
 	fl            net.Listener // the port of TLS-layer upstream faults (upfault.go)
@@ -677,7 +720,7 @@ func New() *Ex {
 }
 
 func (e *Ex) Close() {
-	for _, l := range []net.Listener{e.pl, e.ol, e.otl, e.dead, e.echo, e.fl, e.dl} {
+	for _, l := range []net.Listener{e.pl, e.ol, e.otl, e.dead, e.echo, e.fl, e.dl, e.rstl, e.snl} {
 		if l != nil {
 			l.Close()
 		}
@@ -760,6 +803,12 @@ func (e *Ex) start() {
 	e.originTLSAddr = e.otl.Addr().String()
 	go e.serveOrigin(e.ol, false)
 	go e.serveOrigin(e.otl, true)
+	e.rstl = listen()
+	e.rstAddr = e.rstl.Addr().String()
+	go e.serveResets(e.rstl)
+	e.snl = listen() // same sniffer, a port of its own: connections pooled toward it must not serve the faults
+	e.sniffAddr = e.snl.Addr().String()
+	go e.serveFaults(e.snl)
 	e.fl = listen()
 	e.faultAddr = e.fl.Addr().String()
 	go e.serveFaults(e.fl)
@@ -822,6 +871,9 @@ func (e *Ex) start() {
 		}
 		if strings.HasPrefix(addr, "eof.") { // e.g. a downstream hop that hangs up during the dial
 			return nil, io.EOF
+		}
+		if strings.HasPrefix(addr, "rst.") {
+			return net.DialTimeout(network, e.rstAddr, 2*time.Second)
 		}
 		if strings.HasPrefix(addr, "echo.") {
 			return net.DialTimeout(network, echoAddr, 2*time.Second)
@@ -1036,6 +1088,7 @@ func (e *Ex) runScenario() core.Result {
 				}
 				if werr != nil {
 					core.Count("client:request-write-failed")
+					isTimeout(werr) // an upload that did not fit into the bound is a bound-dependent observation
 				}
 				if res == nil {
 					alive = false
@@ -1061,6 +1114,9 @@ func (e *Ex) runScenario() core.Result {
 				authority := e.originTLSAddr
 				if it.kind == "cblind" {
 					authority = "echo.test:1"
+					if it.s("tg", "") == "rst" {
+						authority = "rst.test:1"
+					}
 					if it.s("dial", "1") == "0" {
 						authority = map[string]string{"timeout": "timeout.test:1", "eof": "eof.test:1"}[it.s("dk", "refuse")]
 						if authority == "" {
@@ -1118,6 +1174,16 @@ func (e *Ex) runScenario() core.Result {
 					cs := tc.ConnectionState()
 					curLayer, curView = idx+2, viewOf(&cs)
 					cc = &clientConn{c: tc, br: bufio.NewReader(tc)}
+				} else if it.kind == "cblind" && it.s("tg", "") == "rst" {
+					// the target sends part of an answer and closes ABORTIVELY; the client waits in silence:
+					// end-of-stream must reach it (C03: failures become clean closes, never a hang)
+					cc.c.SetDeadline(time.Now().Add(ioTimeout))
+					cc.c.Write([]byte("ping"))
+					got, rerr := io.ReadAll(cc.br)
+					w.mu.Lock()
+					w.rec(id).tunnelGot, w.rec(id).tunnelHung = len(got), isTimeout(rerr)
+					w.mu.Unlock()
+					alive = false
 				} else if it.kind == "cblind" {
 					// use the tunnel, then finish it: the proxy must close the connection afterwards
 					cc.c.SetDeadline(time.Now().Add(ioTimeout))
@@ -1256,8 +1322,8 @@ func (e *Ex) report(open bool, left int, probeID string) core.Result {
 		if r.got && it.kind == "x" {
 			pvs, frs = r.pvSeen, r.frSeen
 		}
-		parts = append(parts, fmt.Sprintf("%d:rq=%d,up=%s,uptls=%s,rs=%d,wq=%d,wt=%d,ws=%d,st=%s,cm=%s,cp=%s,https=%s,sec=%s,tls=%s,hij=%s,tid=%d,pv=%s,fr=%s,sv=%d",
-			idx, r.reqmod, b01(r.upCount > 0 || r.dialed > 0), upt, r.resmod, wq, r.wt, r.ws, st, cm, cp, b01(r.https), b01(r.sec), b01(r.tlsAttached), hij, tid, pvs, frs, r.svSeen))
+		parts = append(parts, fmt.Sprintf("%d:rq=%d,up=%s,uptls=%s,rs=%d,wq=%d,wt=%d,ws=%d,st=%s,cm=%s,cp=%s,https=%s,sec=%s,tls=%s,hij=%s,tid=%d,pv=%s,fr=%s,sv=%d,fl=%s",
+			idx, r.reqmod, b01(r.upCount > 0 || r.dialed > 0), upt, r.resmod, wq, r.wt, r.ws, st, cm, cp, b01(r.https), b01(r.sec), b01(r.tlsAttached), hij, tid, pvs, frs, r.svSeen, r.flags))
 
 		// ---------------- property oracles (independent of the Lean model) ----------------
 		rq, rs := it.s("rq", "pass"), it.s("rs", "pass")
@@ -1307,6 +1373,12 @@ func (e *Ex) report(open bool, left int, probeID string) core.Result {
 		}
 		// the session's storage is the connection's: what earlier exchanges stored is still there (across
 		// CONNECT, TLS upgrade, nested tunnels); the context's storage is the exchange's
+		if r.reqmod == 1 && r.flags != "---" && r.flags != wantFlags(it) {
+			failf("c02:context-flag-lost", "exchange %d: after the request modifier's calls (rq=%s api=%s) the context reports skip-round-trip/skip-logging/api-request = %s, the calls made add up to %s", idx, rq, it.s("api", "-"), r.flags, wantFlags(it))
+		}
+		if it.kind == "cblind" && it.s("tg", "") == "rst" && r.got && r.st == 200 && r.tunnelHung {
+			failf("c03:tunnel-hang-after-upstream-reset", "exchange %d: the tunnel's target sent %d bytes and reset the connection; the client got %d bytes and then neither data nor end-of-stream within %v", idx, it.n("k", 0), r.tunnelGot, ioTimeout)
+		}
 		if r.svSeen != r.svWant {
 			failf("c02:session-value-lost", "exchange %d: of the %d values earlier exchanges of this connection stored in the session only %d are readable (lost:%s)", idx, r.svWant, r.svSeen, r.svLost)
 		}
@@ -1356,7 +1428,7 @@ func (e *Ex) report(open bool, left int, probeID string) core.Result {
 			if want := pathOf(id, it); r.upURI != want {
 				failf("c01:target", "exchange %d: origin saw %q, client sent %q", idx, r.upURI, want)
 			}
-			if r.upBody != wantBody {
+			if r.upBody != wantBody && it.s("ur", "0") != "1" { // (ur=1: the origin chose not to read the upload)
 				failf("c01:request-body", "exchange %d: origin received body %s, client sent %s%s", idx, r.upBody, wantBody, earlyNote(it, r))
 			}
 			if !r.upHdrOK {
